@@ -26,6 +26,7 @@ import (
 	"github.com/buildbarn/bb-remote-execution/pkg/filesystem/virtual"
 	"github.com/buildbarn/bb-storage/pkg/digest"
 
+	"google.golang.org/protobuf/encoding/protowire"
 	"google.golang.org/protobuf/proto"
 
 	"verif/internal/ev"
@@ -65,6 +66,7 @@ func TestCheck(t *testing.T) {
 		{"fault-on-file-read-then-retry", 10, 100},
 		{"fault-on-merge-then-retry", 5, 50},
 		{"treeroot-key-separation", 10, 100},
+		{"treeroot-key-separation-child-of-tree", 10, 100},
 		{"immutability-probed-cas-file", 100, 1000},
 		{"cross-action-compare-after-modify", 20, 200},
 		{"create-next-to-lazy-directory", 20, 200},
@@ -606,12 +608,44 @@ func (c *caseRun) checkTreeRoot(when string) bool {
 				"expected": fmt.Sprint(want), "observed": fmt.Sprint(got), "error": fmt.Sprint(err)})
 		return false
 	}
-	order := []string{"dir", "tree", "dir", "tree"}
+	// A wrapper Tree that holds the polyglot bytes verbatim as a child
+	// directory: the same digest is then requested through all three
+	// entry points of the fetcher (root of a Tree, child of a Tree, plain
+	// Directory) and each has to keep its own view whatever was cached by
+	// the others before.
+	wrapRoot := &remoteexecution.Directory{Directories: []*remoteexecution.DirectoryNode{{Name: "p", Digest: p.digest.GetProto()}}}
+	wb, err := proto.MarshalOptions{Deterministic: true}.Marshal(&remoteexecution.Tree{Root: wrapRoot})
+	if err != nil {
+		panic(err)
+	}
+	wb = protowire.AppendTag(wb, 2, protowire.BytesType)
+	wb = protowire.AppendBytes(wb, p.data)
+	wg := c.g.df.NewGenerator(int64(len(wb)))
+	wg.Write(wb)
+	wd := wg.Sum()
+	e.store.putRaw(wd, wb)
+	defer func() {
+		e.store.mu.Lock()
+		delete(e.store.blobs, casKey(wd))
+		e.store.mu.Unlock()
+	}()
+	order := []string{"dir", "tree", "child", "tree", "dir", "tree", "child"}
+	if c.idx%2 == 1 {
+		order = []string{"child", "tree", "dir", "child", "tree"}
+	}
 	if when == "before-actions" {
-		order = []string{"tree", "tree"}
+		order = []string{"tree", "child", "tree"}
 	}
 	for _, o := range order {
-		if o == "tree" {
+		if o == "child" {
+			got, err := e.df.GetTreeChildDirectory(e.ctx, wd, p.digest)
+			if err != nil || !proto.Equal(got, p.msg) {
+				return fail("GetTreeChildDirectory", got, err, p.msg)
+			}
+			if c.cfg.CacheCount > 0 {
+				c.situation("treeroot-key-separation-child-of-tree")
+			}
+		} else if o == "tree" {
 			got, err := e.df.GetTreeRootDirectory(e.ctx, p.digest)
 			if err != nil || !proto.Equal(got, p.treeRoot) {
 				return fail("GetTreeRootDirectory", got, err, p.treeRoot)
